@@ -18,6 +18,10 @@ Node history (state = one node: style, seed, network, manager counters, channels
   keys <dbid> <peer33>                           → ok <stub|ready> <material> | none
   advance <dbid> <peer33>                        → ok next=<n> released=<hex|none> | err
   commit <dbid> <peer33> <n>                     → secret=<hex|none> point=<ok|refused> released=<yes|no> | none
+  rerevoke <dbid> <peer33> <N>                   → ok released=<hex|none> nextsecret=<hex> | err
+                                                   (revoke_previous_holder_commitment(N) again, N < next)
+  getpoint <dbid> <peer33> <n>                   → ok pointsecret=<hex> secret=<hex|none> | err
+                                                   (pre-v6 GetPerCommitmentPoint: point n and the secret of n-2)
   restart                                        → ok <number of channels restored>
 -/
 namespace VlsModel.Drv.Keys
@@ -58,6 +62,10 @@ def oracleTok? (s : String) : Option (Nat × Bytes) :=
 
 def childOf (tbl : List (Nat × Bytes)) : Bytes → Net → Nat → Bytes :=
   fun _ _ i => (tbl.lookup i).getD []
+
+def optHex : Option Bytes → String
+  | some b => toHex b
+  | none => "none"
 
 def material (k : KeyMaterial) : String :=
   s!"id={toHex k.keysId} f={toHex k.funding} r={toHex k.revocation} h={toHex k.htlc} p={toHex k.payment} d={toHex k.delayed} s={toHex k.commitmentSeed}"
@@ -178,10 +186,9 @@ def stepNode (d : DState) (toks : List String) : DState × String :=
         let n := c.nextHolder
         -- validate_holder_commitment_tx(n) then activate (n = 0) or revoke_previous_holder_commitment(n),
         -- which releases the secret of n - 1
-        let rel := if n = 0 then "none" else
-          match holderSecret Sha256.sha256 c.keys (n - 1) with
-          | some s => toHex s
-          | none => "none"
+        let rel := match advanceReply Sha256.sha256 c with
+          | some (some s, _) => toHex s
+          | _ => "none"
         (⟨d.cfg, st', d.oracle⟩, s!"ok next={n + 1} released={rel}")
     | _, _ => (d, "bad-op")
   | ["commit", db, pr, ns], some _ =>
@@ -194,6 +201,26 @@ def stepNode (d : DState) (toks : List String) : DState × String :=
           | some s => toHex s
           | none => "none"
         (d, s!"secret={sec} point={if pointAllowed c n then "ok" else "refused"} released={if secretReleasable c n then "yes" else "no"}")
+    | _, _, _ => (d, "bad-op")
+  | ["rerevoke", db, pr, ns], some _ =>
+    match nat? db, hex? pr, nat? ns with
+    | some dbid, some peer, some n =>
+      match findChan d.st.chans (chanId peer dbid) with
+      | none => (d, "err")
+      | some c =>
+        match revokeReply Sha256.sha256 c n with
+        | none => (d, "err")
+        | some (rel, nxt) => (d, s!"ok released={optHex rel} nextsecret={optHex nxt}")
+    | _, _, _ => (d, "bad-op")
+  | ["getpoint", db, pr, ns], some _ =>
+    match nat? db, hex? pr, nat? ns with
+    | some dbid, some peer, some n =>
+      match findChan d.st.chans (chanId peer dbid) with
+      | none => (d, "err")
+      | some c =>
+        match oldGetPointReply Sha256.sha256 c n with
+        | none => (d, "err")
+        | some (pt, old) => (d, s!"ok pointsecret={optHex pt} secret={optHex old}")
     | _, _, _ => (d, "bad-op")
   | ["restart"], some (style, seed, net) =>
     let P := concretePrims (childOf d.oracle)
